@@ -29,12 +29,10 @@ AllF == {"none", "pre", "post"}
 C12Quick == {Cfg(3, 3, 1, FALSE, FALSE, {"none"}, TRUE), Cfg(3, 3, 2, FALSE, FALSE, {"none"}, FALSE)}
 C12Tiny1 == {Cfg(3, 3, 1, FALSE, FALSE, {"none"}, FALSE)}
 C12Tiny2F == {Cfg(3, 3, 2, FALSE, FALSE, {"none", "pre"}, FALSE)}
-ProbeA == {Cfg(4, 4, 1, FALSE, FALSE, {"none"}, TRUE)}
-ProbeB == {Cfg(4, 4, 2, FALSE, TRUE, AllF, FALSE)}
 C12Thorough == {Cfg(3, 3, 2, FALSE, FALSE, {"none"}, TRUE), Cfg(4, 4, 1, FALSE, FALSE, {"none"}, TRUE), Cfg(4, 4, 2, FALSE, FALSE, {"none"}, TRUE),
                 Cfg(3, 4, 1, FALSE, FALSE, {"none"}, TRUE), Cfg(4, 3, 1, FALSE, FALSE, {"none"}, TRUE),
-                Cfg(3, 3, 1, FALSE, TRUE, AllF, FALSE), CfgF(3, 3, 2, FALSE, TRUE, AllF, FALSE, "SDMF"), Cfg(4, 4, 2, FALSE, TRUE, {"none", "pre"}, FALSE)}
-C12W3 == {Cfg(4, 4, 1, FALSE, FALSE, {"none"}, FALSE), Cfg(3, 3, 1, FALSE, FALSE, {"none"}, FALSE), Cfg(3, 3, 2, FALSE, FALSE, {"none"}, FALSE)}
+                Cfg(3, 3, 1, FALSE, TRUE, AllF, FALSE), CfgF(3, 3, 2, FALSE, TRUE, AllF, FALSE, "SDMF")}
+C12W3 == {Cfg(3, 3, 1, FALSE, FALSE, {"none"}, FALSE), Cfg(3, 3, 2, FALSE, FALSE, {"none"}, FALSE)}
 C47Quick == {CfgF(ns, 3, 2, cr, ~cr, AllF, TRUE, fmt) : ns \in 1..3, cr \in BOOLEAN, fmt \in {"SDMF", "MDMF"}}
 C47Thorough == {CfgF(ns, 3, 2, cr, ~cr, AllF, TRUE, fmt) : ns \in 1..5, cr \in BOOLEAN, fmt \in {"SDMF", "MDMF"}}
                \cup {CfgF(4, 4, 2, cr, ~cr, AllF, TRUE, fmt) : cr \in BOOLEAN, fmt \in {"SDMF", "MDMF"}}
